@@ -124,6 +124,8 @@ func C14(ctx *core.Ctx) {
 		})
 	}
 	lockBalance(ctx, r, "C14.R1", "FBaseProcessor", "FBaseProcessorFunction")
+	ctx.Rule("C14.R7", "an oversize reply is answered with RESPONSE_TOO_LARGE, never dropped: the NATS server's reply buffer is bounded by the payload size the broker accepts", 1)
+	natsReplyBufferLimit(ctx, r, "C14.R7")
 	noDoubleAcquire(ctx, r, "C14.R1", "FBaseProcessor", "FBaseProcessorFunction")
 
 	// ---- R3 ---------------------------------------------------------------------
